@@ -203,6 +203,12 @@ impl<TC: Configuration, const L: usize> Tree<TC, L> {
         let vn = name_of(&val.0);
         let k = key_of(label);
         let mut found = label.label_len == 0 && k == 0 && compact && vn == self.root_name;
+        // a root with a single child hashes the configuration's empty placeholder as its other
+        // child: (empty label, empty node hash) is then a real operand of the root hash, and a
+        // membership proof for it states something true (it is not a 256-bit label either)
+        if !self.split_root && same_label(label, &TC::empty_label()) && crate::util::bytes_eq(&val.0, &TC::empty_node_hash().0) {
+            found = true;
+        }
         let mut lo = 0;
         while lo < L {
             let mut hi = lo;
